@@ -14,6 +14,10 @@
 //        pomcp <seed> <S> <A> <O> <K> <disc> <term:S> <table…> <beliefSize> <iters> <expl> <nops> ops…
 //          op = F <b:S doubles> <h>  sampleAction(b, h)
 //             | A <a> <o> <h>        sampleAction(a, o, h)
+//        mctsv <seed> <S> <Amax> <O> <K> <disc> <term:S> <table…> <acnt:S> <iters> <expl> <nops> ops…
+//          MCTS on a model with a VARIABLE action space: getA(s) = acnt[s] (1..Amax), no getA()
+//        rpomcp <entropy:0|1> <seed> <S> <A> <O> <K> <disc> <term:S> <table…> <beliefSize> <iters> <expl> <k> <nops> ops…
+//          rPOMCP<Model, UseEntropy>, ops as for pomcp
 // output per op:  OP <returned action> <nIsTerminalCalls> LOG <n> (rootN s a s1 o r)*n TREE <dump>
 //   dump(node) = <N> <nbel> bel… <nacts> (aN aV <nkids> (key dump(kid))*)*   kids sorted by key
 #include <vector>
@@ -24,6 +28,7 @@
 #include <AIToolbox/Seeder.hpp>
 #include <AIToolbox/MDP/Algorithms/MCTS.hpp>
 #include <AIToolbox/POMDP/Algorithms/POMCP.hpp>
+#include <AIToolbox/POMDP/Algorithms/rPOMCP.hpp>
 #include "vio.hpp"
 
 // NOTE: POMCP.hpp calls `rollout(model_, …)` unqualified from namespace AIToolbox::POMDP while the
@@ -35,7 +40,7 @@ namespace AIToolbox::MDP {
 struct VerifOutcome { size_t s1, o; double r; };
 struct VerifEvent { unsigned rootN; size_t s, a, s1, o; double r; };
 
-struct VerifScriptModel {
+struct VerifScriptBase {
     size_t S = 0, A = 0, O = 0, K = 0;
     double discount = 1.0;
     std::vector<char> term;
@@ -46,7 +51,6 @@ struct VerifScriptModel {
     const unsigned * rootN = nullptr;
 
     size_t getS() const { return S; }
-    size_t getA() const { return A; }
     size_t getO() const { return O; }
     double getDiscount() const { return discount; }
     bool isTerminal(size_t s) const { ++termCalls; return s < S && term[s]; }
@@ -54,7 +58,10 @@ struct VerifScriptModel {
     const VerifOutcome & draw(size_t s, size_t a) const {
         rng = rng * 6364136223846793005ULL + 1442695040888963407ULL;
         const size_t k = (size_t)((rng >> 33) % K);
-        if (s >= S || a >= A) throw std::logic_error("scripted model called out of range");
+        if (s >= S) throw std::logic_error("scripted model called with a state out of range");
+        // an action outside the table (possible only if the planner passes an illegal action) gets a
+        // fixed outcome; the call is logged as it was made and judged by the oracle
+        if (a >= A) { static const VerifOutcome none{0, 0, 0.0}; return none; }
         return table[(s * A + a) * K + k];
     }
     std::tuple<size_t, double> sampleSR(size_t s, size_t a) const {
@@ -69,12 +76,19 @@ struct VerifScriptModel {
     }
 };
 
+// fixed action space
+struct VerifScriptModel : VerifScriptBase { size_t getA() const { return A; } };
+// variable action space: getA(s) only (HasFixedActionSpace is false)
+struct VerifVarModel : VerifScriptBase {
+    std::vector<size_t> acnt;
+    size_t getA(size_t s) const { return s < S ? acnt[s] : 1; }
+};
 }  // namespace AIToolbox::MDP
 
 namespace {
-using AIToolbox::MDP::VerifScriptModel; using AIToolbox::MDP::VerifOutcome; using AIToolbox::MDP::VerifEvent;
+using AIToolbox::MDP::VerifScriptModel; using AIToolbox::MDP::VerifVarModel; using AIToolbox::MDP::VerifScriptBase; using AIToolbox::MDP::VerifOutcome; using AIToolbox::MDP::VerifEvent;
 
-void readModel(vio::Cursor & c, VerifScriptModel & m) {
+void readModel(vio::Cursor & c, VerifScriptBase & m) {
     m.rng = (uint64_t) c.nextSize();
     m.S = c.nextSize(); m.A = c.nextSize(); m.O = c.nextSize(); m.K = c.nextSize();
     m.discount = c.nextDouble();
@@ -84,7 +98,7 @@ void readModel(vio::Cursor & c, VerifScriptModel & m) {
     for (auto & oc : m.table) { oc.s1 = c.nextSize(); oc.o = c.nextSize(); oc.r = c.nextDouble(); }
 }
 
-void dumpLog(vio::Out & o, const VerifScriptModel & m) {
+void dumpLog(vio::Out & o, const VerifScriptBase & m) {
     o << "LOG" << m.log.size();
     for (const auto & e : m.log) o << e.rootN << e.s << e.a << e.s1 << e.o << e.r;
 }
@@ -108,12 +122,14 @@ void dumpNode(vio::Out & o, const Node & n, const std::vector<size_t> * belief) 
     }
 }
 
+template <typename Model>
 void runMCTS(vio::Cursor & c, vio::Out & o) {
-    VerifScriptModel m; readModel(c, m);
+    Model m; readModel(c, m);
+    if constexpr (requires { m.acnt; }) { m.acnt.resize(m.S); for (auto & x : m.acnt) x = c.nextSize(); }
     const unsigned iters = (unsigned) c.nextSize();
     const double expl = c.nextDouble();
     AIToolbox::Seeder::setRootSeed((unsigned) m.rng);
-    AIToolbox::MDP::MCTS<VerifScriptModel> planner(m, iters, expl);
+    AIToolbox::MDP::MCTS<Model> planner(m, iters, expl);
     m.rootN = &planner.getGraph().N;
     const size_t nops = c.nextSize();
     for (size_t i = 0; i < nops; ++i) {
@@ -158,12 +174,44 @@ void runPOMCP(vio::Cursor & c, vio::Out & o) {
     }
 }
 
+template <bool UseEntropy>
+void runRPOMCP(vio::Cursor & c, vio::Out & o) {
+    VerifScriptModel m; readModel(c, m);
+    const size_t beliefSize = c.nextSize();
+    const unsigned iters = (unsigned) c.nextSize();
+    const double expl = c.nextDouble();
+    const unsigned k = (unsigned) c.nextSize();
+    AIToolbox::Seeder::setRootSeed((unsigned) m.rng);
+    AIToolbox::POMDP::rPOMCP<VerifScriptModel, UseEntropy> planner(m, beliefSize, iters, expl, k);
+    m.rootN = &planner.getGraph().N;
+    const size_t nops = c.nextSize();
+    for (size_t i = 0; i < nops; ++i) {
+        const std::string op = c.next();
+        m.log.clear(); m.termCalls = 0;
+        size_t ret;
+        if (op == "F") {
+            AIToolbox::POMDP::Belief b(m.S);
+            for (size_t s = 0; s < m.S; ++s) b[s] = c.nextDouble();
+            unsigned h = (unsigned) c.nextSize();
+            ret = planner.sampleAction(b, h);
+        }
+        else if (op == "A") { size_t a = c.nextSize(); size_t ob = c.nextSize(); unsigned h = (unsigned) c.nextSize(); ret = planner.sampleAction(a, ob, h); }
+        else throw std::logic_error("unknown op " + op);
+        o << "OP" << ret << m.termCalls;
+        dumpLog(o, m);
+        o << "TREE";
+        dumpNode(o, static_cast<const AIToolbox::POMDP::BeliefNode<UseEntropy> &>(planner.getGraph()), nullptr);
+    }
+}
+
 } // namespace
 
 int main(int argc, char ** argv) {
     return vio::runCases(argc, argv, [](vio::Cursor & c, vio::Out & o) {
         const std::string kind = c.next();
-        if (kind == "mcts") runMCTS(c, o);
+        if (kind == "mcts") runMCTS<VerifScriptModel>(c, o);
+        else if (kind == "mctsv") runMCTS<VerifVarModel>(c, o);
+        else if (kind == "rpomcp") { if (c.nextSize()) runRPOMCP<true>(c, o); else runRPOMCP<false>(c, o); }
         else if (kind == "pomcp") runPOMCP(c, o);
         else throw std::logic_error("unknown case kind " + kind);
     });
